@@ -788,4 +788,204 @@ theorem segSegParamsGen_kkt {V : Type} (sub : V → V → V) (dot : V → V → 
   · subst hst
     exact seg_mid A B C E F 0 hEpos hs1 h7 h8
 
+
+/-- the three tolerance tests of the segment/segment kernel are exact on this input: a squared length `≤ ε` is `0`,
+and the collinearity test (`denom ≤ ε` or `ulps_eq!(ae, bb)`) fires only for exactly parallel segments. -/
+def SegExact3 (a1 b1 a2 b2 : V3 K) : Prop :=
+  letI := fieldNum K sq
+  letI := fieldBits K
+  ((b1.sub a1).dot (b1.sub a1) ≤ eps → (b1.sub a1).dot (b1.sub a1) = 0) ∧
+  ((b2.sub a2).dot (b2.sub a2) ≤ eps → (b2.sub a2).dot (b2.sub a2) = 0) ∧
+  (eps < (b1.sub a1).dot (b1.sub a1) → eps < (b2.sub a2).dot (b2.sub a2) →
+    (eps < (b1.sub a1).dot (b1.sub a1) * (b2.sub a2).dot (b2.sub a2) - (b1.sub a1).dot (b2.sub a2) * (b1.sub a1).dot (b2.sub a2) ∧
+      ulpsEq ((b1.sub a1).dot (b1.sub a1) * (b2.sub a2).dot (b2.sub a2)) ((b1.sub a1).dot (b2.sub a2) * (b1.sub a1).dot (b2.sub a2)) = false) ∨
+    (b1.sub a1).dot (b1.sub a1) * (b2.sub a2).dot (b2.sub a2) - (b1.sub a1).dot (b2.sub a2) * (b1.sub a1).dot (b2.sub a2) = 0)
+
+private theorem zero_of_sq_sum (x y z : K) (h : x * x + y * y + z * z = 0) : x = 0 ∧ y = 0 ∧ z = 0 := by
+  refine ⟨?_, ?_, ?_⟩ <;> nlinarith [mul_self_nonneg x, mul_self_nonneg y, mul_self_nonneg z]
+
+private theorem gram_nonneg (d : V3 K) : 0 ≤ dot3 d d := by
+  simp only [dot3]; nlinarith [mul_self_nonneg d.x, mul_self_nonneg d.y, mul_self_nonneg d.z]
+
+private theorem gram_zero (d r : V3 K) (h : dot3 d d = 0) : dot3 d r = 0 := by
+  simp only [dot3] at h ⊢
+  obtain ⟨hx, hy, hz⟩ := zero_of_sq_sum _ _ _ h
+  simp only [hx, hy, hz]; simp
+
+private theorem gram_zero' (d r : V3 K) (h : dot3 d d = 0) : dot3 r d = 0 := by
+  simp only [dot3] at h ⊢
+  obtain ⟨hx, hy, hz⟩ := zero_of_sq_sum _ _ _ h
+  simp only [hx, hy, hz]; simp
+
+/-- parallel directions (`|d1|²|d2|² = (d1·d2)²`) ⇒ `(d1·d2)(d2·r) = (d1·r)|d2|²` -/
+private theorem gram_parallel (d1 d2 r : V3 K) (hD : dot3 d1 d1 * dot3 d2 d2 - dot3 d1 d2 * dot3 d1 d2 = 0) :
+    dot3 d1 d2 * dot3 d2 r = dot3 d1 r * dot3 d2 d2 := by
+  simp only [dot3] at hD ⊢
+  obtain ⟨hx, hy, hz⟩ := zero_of_sq_sum
+    (d1.y * d2.z - d1.z * d2.y) (d1.z * d2.x - d1.x * d2.z) (d1.x * d2.y - d1.y * d2.x) (by linear_combination hD)
+  linear_combination (-(r.y * d2.z - r.z * d2.y)) * hx + (-(r.z * d2.x - r.x * d2.z)) * hy + (-(r.x * d2.y - r.y * d2.x)) * hz
+
+omit [LinearOrder K] [IsStrictOrderedRing K] in
+/-- `|a2 + t·d2 - (a1 + s·d1)|² = Q(s,t) + |r|²` -/
+private theorem distSq_eq_Qf (a1 a2 d1 d2 : V3 K) (s t : K) :
+    (a2.x + d2.x * t - (a1.x + d1.x * s)) * (a2.x + d2.x * t - (a1.x + d1.x * s)) +
+    (a2.y + d2.y * t - (a1.y + d1.y * s)) * (a2.y + d2.y * t - (a1.y + d1.y * s)) +
+    (a2.z + d2.z * t - (a1.z + d1.z * s)) * (a2.z + d2.z * t - (a1.z + d1.z * s)) =
+    Qf (dot3 d1 d1) (dot3 d1 d2) (dot3 d1 ⟨a1.x - a2.x, a1.y - a2.y, a1.z - a2.z⟩) (dot3 d2 d2)
+      (dot3 d2 ⟨a1.x - a2.x, a1.y - a2.y, a1.z - a2.z⟩) s t +
+      ((a1.x - a2.x) * (a1.x - a2.x) + (a1.y - a2.y) * (a1.y - a2.y) + (a1.z - a2.z) * (a1.z - a2.z)) := by
+  simp only [Qf, dot3]; ring
+
+theorem dot_eq_dot3 (a b : V3 K) : @V3.dot K (fieldNum K sq) a b = dot3 a b := rfl
+
+/-- **Optimality of the segment/segment parameters (3-D).** Under `SegExact3`, the parameters `(s, t)` computed by
+`closest_points_segment_segment_with_locations_nD` lie in `[0,1]²` and minimise the squared distance between
+`a1 + s(b1 - a1)` and `a2 + t(b2 - a2)` over the whole unit square — i.e. over all pairs of points of the segments. -/
+theorem segSegParams_optimal3 (a1 b1 a2 b2 : V3 K) (hex : SegExact3 sq a1 b1 a2 b2) :
+    letI := fieldNum K sq
+    letI := fieldBits K
+    ∀ st, st = segSegParamsGen V3.sub V3.dot a1 b1 a2 b2 →
+    0 ≤ st.1 ∧ st.1 ≤ 1 ∧ 0 ≤ st.2 ∧ st.2 ≤ 1 ∧
+    ∀ s' t', 0 ≤ s' → s' ≤ 1 → 0 ≤ t' → t' ≤ 1 →
+      ((a2.add ((b2.sub a2).smul st.2)).sub (a1.add ((b1.sub a1).smul st.1))).normSq ≤
+      ((a2.add ((b2.sub a2).smul t')).sub (a1.add ((b1.sub a1).smul s'))).normSq := by
+  intro st hst
+  obtain ⟨h1, h2, h3⟩ := hex
+  generalize hd1 : @V3.sub K (fieldNum K sq) b1 a1 = d1 at *
+  generalize hd2 : @V3.sub K (fieldNum K sq) b2 a2 = d2 at *
+  have hr : @V3.sub K (fieldNum K sq) a1 a2 = ⟨a1.x - a2.x, a1.y - a2.y, a1.z - a2.z⟩ := rfl
+  have hcs := cs3 d1 d2
+  have key := segSegParamsGen_kkt sq (@V3.sub K (fieldNum K sq)) (@V3.dot K (fieldNum K sq)) a1 b1 a2 b2
+    (dot3 d1 d1) (dot3 d2 d2) (dot3 d2 ⟨a1.x - a2.x, a1.y - a2.y, a1.z - a2.z⟩)
+    (dot3 d1 ⟨a1.x - a2.x, a1.y - a2.y, a1.z - a2.z⟩) (dot3 d1 d2)
+    (by rw [hd1, dot_eq_dot3]) (by rw [hd2, dot_eq_dot3]) (by rw [hd2, hr, dot_eq_dot3]) (by rw [hd1, hr, dot_eq_dot3])
+    (by rw [hd1, hd2, dot_eq_dot3])
+    (gram_nonneg d1) (gram_nonneg d2) (by nlinarith)
+    (fun hD => gram_parallel d1 d2 _ hD)
+    (fun h0 => ⟨gram_zero d1 d2 h0, gram_zero d1 _ h0⟩)
+    (fun h0 => ⟨gram_zero' d2 d1 h0, gram_zero d2 _ h0⟩)
+    h1 h2 h3 st hst
+  obtain ⟨k1, k2, k3, k4, k5⟩ := key
+  refine ⟨k1, k2, k3, k4, fun s' t' hs0 hs1 ht0 ht1 => ?_⟩
+  have hv := k5 s' t' hs0 hs1 ht0 ht1
+  have hq := kkt_opt _ _ _ _ _ st.1 st.2 s' t' (gram_nonneg d1) (gram_nonneg d2) (by nlinarith) hv
+  have e1 := distSq_eq_Qf a1 a2 d1 d2 st.1 st.2
+  have e2 := distSq_eq_Qf a1 a2 d1 d2 s' t'
+  simp only [V3.sub, V3.add, V3.smul, V3.normSq, V3.dot]
+  rw [e1, e2]
+  linarith
+
+private theorem neq_iff (a b : K) : @neq K (fieldNum K sq) a b = true ↔ a = b := by
+  simp only [neq, Bool.and_eq_true, decide_eq_true_eq]
+  exact ⟨fun ⟨h1, h2⟩ => le_antisymm h1 h2, fun h => ⟨h.le, h.ge⟩⟩
+
+/-- `Segment::point_at` of the location built from the parameter `s` is the point `a + s(b - a)` -/
+theorem pointAt3_eq (a b : V3 K) (s : K) :
+    letI := fieldNum K sq
+    pointAt3 a b s = a.add ((b.sub a).smul s) := by
+  obtain ⟨ax, ay, az⟩ := a
+  obtain ⟨bx, b_y, bz⟩ := b
+  simp only [pointAt3]
+  split_ifs with h0 h1
+  · rw [neq_iff] at h0; subst h0
+    simp only [V3.add, V3.sub, V3.smul, V3.mk.injEq]; refine ⟨?_, ?_, ?_⟩ <;> ring
+  · rw [neq_iff] at h1; subst h1
+    simp only [V3.add, V3.sub, V3.smul, V3.mk.injEq]; refine ⟨?_, ?_, ?_⟩ <;> ring
+  · simp only [V3.add, V3.sub, V3.smul, V3.mk.injEq]; refine ⟨?_, ?_, ?_⟩ <;> ring
+
+/-- isometries are affine: `m·(a + t(b - a)) = m·a + t(m·b - m·a)` (any quaternion) -/
+theorem act_affine3 (m : Iso3 K) (a b : V3 K) (t : K) :
+    letI := fieldNum K sq
+    m.act (a.add ((b.sub a).smul t)) = (m.act a).add (((m.act b).sub (m.act a)).smul t) := by
+  simp only [Iso3.act, Iso3.rot, Iso3.rotQ, Iso3.qv, V3.add, V3.sub, V3.smul, V3.cross, fieldNum_two, V3.mk.injEq]
+  refine ⟨?_, ?_, ?_⟩ <;> ring
+
+/-- the segment `[a, b]` as a set (`Segment3.Mem`) -/
+def SegAt (a b : V3 K) (p : V3 K) : Prop :=
+  ∃ t : K, 0 ≤ t ∧ t ≤ 1 ∧ p = @V3.add K (fieldNum K sq) a (@V3.smul K (fieldNum K sq) (@V3.sub K (fieldNum K sq) b a) t)
+
+/-- **`closest_points_segment_segment` (3-D).** With segment 2 placed by `pos12` (any quaternion: isometries are affine
+maps of the parameter), and the tolerance tests exact on the placed input (`SegExact3`):
+* `WithinMargin(p1, p2)` ⇒ `p1 ∈ [a1,b1]`, `p2 ∈ [a2,b2]` (local), `(p1, pos12·p2)` is a closest pair of the two
+  segments, and its gap is `≤ margin`;
+* `Disjoint` ⇒ every pair of points of the segments is farther apart than `|margin|`;
+* the function **never answers `Intersecting`** (crossing segments are reported as `WithinMargin` with coincident
+  witnesses) — a documented deviation from the `Intersecting ⇔ overlap` clause of the property. -/
+theorem closestPointsSegmentSegment_spec (pos12 : Iso3 K) (a1 b1 a2 b2 : V3 K) (margin : K) :
+    letI := fieldNum K sq
+    letI := fieldBits K
+    SegExact3 sq a1 b1 (pos12.act a2) (pos12.act b2) →
+    match closestPointsSegmentSegment pos12 a1 b1 a2 b2 margin with
+    | .intersecting => False
+    | .within p1 p2 =>
+        SegAt sq a1 b1 p1 ∧ SegAt sq a2 b2 p2 ∧
+        (∀ x y, SegAt sq a1 b1 x → SegAt sq a2 b2 y → ((pos12.act p2).sub p1).normSq ≤ ((pos12.act y).sub x).normSq) ∧
+        ((pos12.act p2).sub p1).normSq ≤ margin * margin
+    | .disjoint => ∀ x y, SegAt sq a1 b1 x → SegAt sq a2 b2 y → margin * margin < ((pos12.act y).sub x).normSq := by
+  intro hex
+  have hopt := segSegParams_optimal3 sq a1 b1 _ _ hex _ rfl
+  generalize hR : @closestPointsSegmentSegment K (fieldNum K sq) (fieldBits K) pos12 a1 b1 a2 b2 margin = R
+  dsimp only [closestPointsSegmentSegment] at hR
+  generalize @segSegParamsGen K (fieldNum K sq) (fieldBits K) (V3 K) (@V3.sub K (fieldNum K sq)) (@V3.dot K (fieldNum K sq)) a1 b1
+    (@Iso3.act K (fieldNum K sq) pos12 a2) (@Iso3.act K (fieldNum K sq) pos12 b2) = st at *
+  obtain ⟨s, t⟩ := st
+  obtain ⟨hs0, hs1, ht0, ht1, hmin⟩ := hopt
+  simp only at hs0 hs1 ht0 ht1 hmin hR
+  rw [pointAt3_eq, pointAt3_eq, act_affine3] at hR
+  have hall : ∀ x y, SegAt sq a1 b1 x → SegAt sq a2 b2 y →
+      @V3.normSq K (fieldNum K sq) (@V3.sub K (fieldNum K sq)
+        (@V3.add K (fieldNum K sq) (@Iso3.act K (fieldNum K sq) pos12 a2) (@V3.smul K (fieldNum K sq) (@V3.sub K (fieldNum K sq) (@Iso3.act K (fieldNum K sq) pos12 b2) (@Iso3.act K (fieldNum K sq) pos12 a2)) t))
+        (@V3.add K (fieldNum K sq) a1 (@V3.smul K (fieldNum K sq) (@V3.sub K (fieldNum K sq) b1 a1) s))) ≤
+      @V3.normSq K (fieldNum K sq) (@V3.sub K (fieldNum K sq) (@Iso3.act K (fieldNum K sq) pos12 y) x) := by
+    rintro x y ⟨s', hs'0, hs'1, rfl⟩ ⟨t', ht'0, ht'1, rfl⟩
+    rw [act_affine3]
+    exact hmin s' t' hs'0 hs'1 ht'0 ht'1
+  split_ifs at hR with hm <;> subst hR <;> simp only
+  · refine ⟨⟨s, hs0, hs1, rfl⟩, ⟨t, ht0, ht1, rfl⟩, ?_, ?_⟩
+    · intro x y hx hy
+      rw [act_affine3]
+      exact hall x y hx hy
+    · rw [act_affine3]; exact hm
+  · intro x y hx hy
+    exact lt_of_lt_of_le (not_le.1 hm) (hall x y hx hy)
+
+/-- non-vacuity of `SegExact3`: the skew unit segments `[(0,0,0),(1,0,0)]` and `[(0,1,0),(0,1,1)]` over `ℚ` pass all
+three tolerance tests exactly (lengths `1 > ε`, `denom = 1 > ε`, `ulps_eq!(1, 0)` false). -/
+example : SegExact3 (fun x : ℚ => x) ⟨0, 0, 0⟩ ⟨1, 0, 0⟩ ⟨0, 1, 0⟩ ⟨0, 1, 1⟩ := by
+  simp only [SegExact3, V3.sub, V3.dot, eps, fieldNum_lit, ulpsEq]
+  norm_num
+
+/-- **`closest_points_line_line_parameters_eps`**: when the function does not flag the lines as parallel and both
+directions are longer than `eps ≥ 0`, the returned parameters make the connecting vector orthogonal to both
+directions (`C + A·s - B·t = 0`, `F + B·s - E·t = 0` with `A = |d1|²`, `B = d1·d2`, `C = d1·r`, `E = |d2|²`, `F = d2·r`),
+which by `kkt_opt` is optimal over **all** real parameters. Any dimension. -/
+theorem lineLineParamsGen_stationary {V : Type} (sub : V → V → V) (dot : V → V → K) (o1 d1 o2 d2 : V) (ε A E F C B : K)
+    (eA : dot d1 d1 = A) (eE : dot d2 d2 = E) (eF : dot d2 (sub o1 o2) = F) (eC : dot d1 (sub o1 o2) = C)
+    (eB : dot d1 d2 = B) (hε : 0 ≤ ε) (hA : ε < A) (hE : ε < E) :
+    letI := fieldNum K sq
+    letI := fieldBits K
+    ∀ r, r = lineLineParamsGen sub dot o1 d1 o2 d2 ε → r.2.2 = false →
+      C + A * r.1 - B * r.2.1 = 0 ∧ F + B * r.1 - E * r.2.1 = 0 := by
+  intro r hr hpar
+  dsimp only [lineLineParamsGen] at hr
+  rw [eA, eE, eF, eC, eB] at hr
+  have hEpos : 0 < E := lt_of_le_of_lt hε hE
+  have hEne : E ≠ 0 := ne_of_gt hEpos
+  rw [if_neg (fun h => absurd h.1 (not_le.2 hA)), if_neg (not_le.2 hA), if_neg (not_le.2 hE)] at hr
+  subst hr
+  simp only [Bool.or_eq_false_iff, decide_eq_false_iff_not, not_le] at hpar
+  have hD : A * E - B * B ≠ 0 := ne_of_gt (lt_of_le_of_lt hε hpar.1)
+  simp only [hpar.1.not_ge, hpar.2, decide_false, Bool.or_self, Bool.not_false, if_true]
+  have hs : (B * F - C * E) / (A * E - B * B) * (A * E - B * B) = B * F - C * E := div_mul_cancel₀ _ hD
+  have ht : (B * ((B * F - C * E) / (A * E - B * B)) + F) / E * E = B * ((B * F - C * E) / (A * E - B * B)) + F :=
+    div_mul_cancel₀ _ hEne
+  generalize (B * F - C * E) / (A * E - B * B) = s at *
+  generalize (B * s + F) / E = t at *
+  constructor
+  · have : E * (C + A * s - B * t) = 0 := by linear_combination hs - B * ht
+    rcases mul_eq_zero.1 this with h | h
+    · exact absurd h hEne
+    · exact h
+  · linear_combination (-1 : K) * ht
+
 end C01
